@@ -261,7 +261,7 @@ pub fn run(ctx: &mut Ctx) {
 			|(v, ch, sel, kind)| {
 				let s = shuffle(v, &mut gen::Chooser::new(ch));
 				let m = super::c14::near_copy(&s, *sel, *kind);
-				let (a, b, c) = (v.to_value(), s.to_value_push(), m.to_value());
+				let (a, b, c) = (v.to_value_route(*kind), s.to_value_route(kind.wrapping_add(*sel as u8)), m.to_value_route((*sel >> 8) as u8));
 				if normal_form(v) != normal_form(&s) {
 					return Outcome::fail("harness: shuffle changed the normal form".into());
 				}
